@@ -23,14 +23,23 @@ res = {"dir": d, "head": sh("git -C /repo rev-parse --short HEAD")[1].strip()}
 if demo is None:
     res["error"] = "no demo_test.go"; print(json.dumps(res)); sys.exit(1)
 src = open(demo).read()
-m = re.search(r"copy this file to\s+(\S+\.go)", src)
-r = re.search(r"go test[^\n]*?-run\s+(\S+)\s+(\./\S+)", src)
+hdr = src.split("\npackage ")[0]
+m = (re.search(r"copy this file to\s+(\S+\.go)", hdr) or re.search(r"copy this\s+file there as\s+(\S+\.go)", hdr)
+     or re.search(r"cp demo_test\.go\s+(\S+\.go)", hdr) or re.search(r"(?:as|to)\s+(\S+_test\.go)", hdr))
+r = re.search(r"go test[^\n]*?-run\s+(\S+)\s+(\./\S+)", hdr)
+class _M:
+    def __init__(self, s): self.s = s
+    def group(self, i): return self.s
+if m:
+    dest0 = re.sub(r"^<[a-z]+>/", "", m.group(1))
+    m = _M(dest0)
 if not m or not r:
     res["error"] = "cannot parse placement/run from demo header"; print(json.dumps(res)); sys.exit(1)
 dest, runpat, pkg = m.group(1), r.group(1), r.group(2)
 race = "-race" if re.search(r"go test[^\n]*-race", src) else ""
 cmd = "go test %s -count=1 -run '%s' %s" % (race, runpat, pkg)
 import shutil
+os.makedirs(os.path.dirname(os.path.join(WT, dest)), exist_ok=True)
 shutil.copy(demo, os.path.join(WT, dest))
 rc0, out0 = sh(cmd, cwd=WT)
 res["demo_without_patch"] = "pass" if rc0 == 0 else "FAIL"
